@@ -561,8 +561,11 @@ fn report_hang(prop: &str, args: &Args, hung: &Mutex<Option<(usize, String)>>) -
 }
 
 pub mod basic;
+pub mod c01;
 pub mod c05;
+pub mod c06;
 pub mod c09;
 pub mod c10;
 pub mod progeng;
+pub mod props_damage;
 pub mod props_write;
